@@ -537,7 +537,7 @@ impl Prop for C12 {
         if c.hash_seed != 0 { out.push(SdsCase { hash_seed: 0, ..c.clone() }); }
         out
     }
-    fn rule(&self) -> String { "A case is one window-consistent stream history over 2-3 simulated windows (+ optional static graph) with an increasing sequence of evaluation times chosen by the simulated clock (dense, sparse, jumping past every expiry); at every evaluation incremental_sds_plus is fed the carried state and compared, per component, fact by fact and expiry by expiry, with a from-scratch reference least model over the alive facts with the expiry lattice; naive_sds_plus must give the same fact sets. Non-trivial = at least 3 evaluation steps and a non-empty final materialisation; distinct = hash of (rules, steps, windows). A third of the cases put rule heads on predicates of input windows (a fact both listed and derived); one case in ten renews the source of a 5-10 item chain under a recursive rule (more tag-only fixpoint rounds than rules).".into() }
+    fn rule(&self) -> String { "A case is one window-consistent stream history over 2-3 simulated windows (+ optional static graph) with an increasing sequence of evaluation times chosen by the simulated clock (dense, sparse, jumping past every expiry); at every evaluation incremental_sds_plus is fed the carried state and compared, per component, fact by fact and expiry by expiry, with a from-scratch reference least model over the alive facts with the expiry lattice; naive_sds_plus must give the same fact sets. Non-trivial = at least 3 evaluation steps and a non-empty final materialisation; distinct = hash of (rules, steps, windows). A third of the cases put rule heads on predicates of input windows (a fact both listed and derived); one case in ten renews the source of a 5-10 item chain under a recursive rule (more tag-only fixpoint rounds than rules). Heads may also lie in the static graph's namespace (supported by window facts, they expire like any derived fact).".into() }
     fn assumptions(&self) -> Vec<String> { vec!["window contents are built as the quantifier states: a triple is listed once with its latest arrival and stays listed until event_time + alpha <= t".into(), "rule conclusions lie in an output component or (a third of the cases) on a predicate of an input window; component IRIs may be nested but local names contain no '/'".into()] }
     fn real_vs_stub(&self) -> serde_json::Value { serde_json::json!({"real": ["datalog::reasoning::materialisation::cross_window_incremental::incremental_sds_plus", "cross_window_naive::naive_sds_plus", "cross_window_sds::translate_sds_to_datalog", "provenance_semi_naive (ExpirationProvenance)"], "simulated": ["stream arrival times and evaluation clock", "window contents (simulated windows; the real CSPARQLWindow is exercised by C09-C11)", "rayon (sim-rayon)", "hash keys"], "not_run": ["RSPEngine cross-window wiring (build_cross_window_sds)"]}) }
 }
